@@ -75,6 +75,10 @@ def run(chk):
                       "(classification and accessors write none of them)", 4)
     if chk.want("R12.6"):
         r12_6(chk, uc)
+    chk.rule("R12.7", "the reported parameter vector is (lengths, angles in degrees) of this cell; its snapping of nearly equal entries compares like "
+                      "with like (lengths are overwritten by lengths under a comparison of lengths, angles by angles under a comparison of angles)", 3)
+    if chk.want("R12.7") and "UnitCell.parameters" in uc.funcs:
+        r12_7(chk, uc)
     if chk.want("R12.3"):
         r12_unique(chk, uc)
     hook = volume_hook(uc)
@@ -515,6 +519,66 @@ def r12_unique(chk, uc):
         chk.ob("R12.3", UC, "UnitCell._set_cell_type", f"branch {name}: unique_parameters_deg lists the same parameters as unique_parameters, angles in degrees",
                ok, fingerprint=f"unique-deg:{name}", expected=str(u)[:100], found=str(dg)[:100])
     chk.need(n >= 5, f"_set_cell_type: only {n} branches with both parameter tuples found")
+
+
+def r12_7(chk, uc):
+    q = "UnitCell.parameters"
+    ev = uc.ev(q)
+    chk.saw(UC, q)
+    objs = {}                                  # object key -> (name, initial value)
+    for e in ev.events:
+        if e.kind == "assign" and e.value is not None and e.value.as_atom() and e.value.as_atom()[0] == "obj":
+            a = e.value.as_atom()
+            objs[e.value.key()] = (a[1], a[3] if len(a) > 3 else None)
+
+    def source(t):
+        """'lengths' / 'angles' / None for the array a term is made from."""
+        k = t.key() if t is not None else ""
+        if k in objs and objs[k][1] is not None:
+            k = objs[k][1].key()
+        import re
+        has_l = bool(re.search(r"self\.(lengths|a|b|c)\b", k))
+        has_a = bool(re.search(r"self\.(angles|alpha|beta|gamma)\b", k))
+        if has_l and not has_a:
+            return "lengths"
+        if has_a and not has_l:
+            return "angles" + ("-deg" if "degrees(" in k or "180" in k else "")
+        return None
+    rets = [e for e in ev.events if e.kind == "return" and e.value is not None]
+    chk.need(rets, f"{q}: no return value")
+    okr, foundr = True, None
+    for r in rets:
+        a = r.value.as_atom()
+        it = None
+        if a and a[0] == "call" and call_name(a) in ("numpy.hstack", "numpy.concatenate", "numpy.r_") and a[2]:
+            it = seq_items(a[2][0])
+        elif a and a[0] == "sub" and a[1].key() == "numpy.r_":
+            it = list(a[2])
+        if not (it and len(it) == 2 and source(it[0]) == "lengths" and source(it[1]) == "angles-deg"):
+            okr, foundr = False, foundr or str(r.value)[:160]
+    chk.ob("R12.7", UC, q, "parameters = (the three lengths, the three angles in degrees), in that order", okr, fingerprint="vector",
+           expected="hstack((lengths, degrees(angles)))", found=foundr)
+    n = 0
+    for e in ev.events:
+        if e.kind not in ("store", "aug") or e.target is None:
+            continue
+        ta = e.target.as_atom()
+        if not (ta and ta[0] == "sub" and ta[1].key() in objs):
+            continue
+        own = ta[1].key()
+        others = set()
+        for t in list(ta[2]) + [e.value]:
+            for o in find_atoms(t, lambda x: x[0] == "obj"):
+                k = P.atom(o).key()
+                if k != own and k in objs and source(P.atom(o)) is not None:
+                    others.add(objs[k][0])
+            kind = source(t) if t.key() not in objs else None
+            if kind is not None and source(ta[1]) is not None and kind.split("-")[0] != source(ta[1]).split("-")[0] and own not in t.key():
+                others.add(kind)
+        n += 1
+        chk.ob("R12.7", UC, q, f"the entries of `{objs[own][0]}` are overwritten only with entries of `{objs[own][0]}`, selected by a comparison "
+               f"among its own entries", not others, node=e.node, fingerprint=f"snap:{source(ta[1])}:{n}",
+               expected=f"{objs[own][0]}[mask of {objs[own][0]}] = {objs[own][0]}[i]", found=f"{str(e.target)[:90]} = {str(e.value)[:40]} (uses {sorted(others)})")
 
 
 def r12_6(chk, uc):
